@@ -1,0 +1,11 @@
+//go:build verif
+
+// C12 contracts for package handshake (comment-only; read by /verif/vc).
+// The layout of Header.Marshal / Header.Unmarshal is specified in verif_contracts_c18.go; C12 relies
+// on it and adds only what the fragmenting caller needs: the encoded header is a new buffer, so that
+// appending the body to it cannot overwrite the message or an earlier fragment.
+package handshake
+
+//@ func Header.Marshal
+//@ ensures c12-fresh-buffer: fresh(result0)
+//@ end
